@@ -40,11 +40,19 @@ func (w *World) Regimes() map[string][]string {
 	out["canceled"] = append(append([]string{}, late...), fmt.Sprintf("cancel:%d", reps[0]), "empty", "empty", "empty")
 	out["v2"] = append(append([]string{}, late...), "stake:0", "upv2:0", "upv2:1", "upv2:2", "v2vote:0>0", "v2vote:0>1", "v2vote:0>2", "empty", "empty")
 	out["v2active"] = append(append([]string{}, out["v2"]...), "empty", "empty", "empty", "empty")
+	// late + the chain reverted to PoW (16), RevertToDPOS accepted at 18 (work height W = 28) and
+	// PoW blocks up to W: the next block, W+1, restarts DPOSStartHeight AND performs the regular
+	// irreversibility advance (two changes of the same field at one height)
+	ret := append(append([]string{}, late...), "pow", "empty", "dpos")
+	for len(ret) < 28 {
+		ret = append(ret, "empty")
+	}
+	out["returned"] = ret
 	return out
 }
 
 // RegimeNames lists the regimes in exploration order.
-var RegimeNames = []string{"early", "late", "inactive", "canceled", "v2", "v2active"}
+var RegimeNames = []string{"early", "late", "inactive", "canceled", "v2", "v2active", "returned"}
 
 // StateCanonOpts are the canonicalisation options under which two DPoS states are compared.
 var StateCanonOpts = &CanonOpts{
